@@ -213,10 +213,9 @@ func typeIdentical(x, y types.Type, p *ifacePair) bool {
 		if !ok {
 			return false
 		}
-		if x.Obj() == y.Obj() {
-			return true
-		}
-		return sameID(x.Obj(), y.Obj().Pkg(), y.Obj().Name())
+		// The objects may come from different type-check runs (so their addresses differ),
+		// but then they have the same name and are declared in packages with the same path.
+		return x.Obj() == y.Obj() || sameTypeName(x.Obj(), y.Obj())
 
 	case *typeparams.TypeParam:
 		// nothing to do (x and y being equal is caught in the very beginning of this function)
@@ -245,6 +244,18 @@ type ifacePair struct {
 func (p *ifacePair) identical(q *ifacePair) bool {
 	return (p.x == q.x && p.y == q.y) ||
 		(p.x == q.y && p.y == q.x)
+}
+
+// sameTypeName reports whether two type names denote the same declared type:
+// the same name declared in packages with the same path (or both in the universe scope).
+func sameTypeName(x, y *types.TypeName) bool {
+	if x.Name() != y.Name() {
+		return false
+	}
+	if x.Pkg() == nil || y.Pkg() == nil {
+		return x.Pkg() == y.Pkg()
+	}
+	return x.Pkg().Path() == y.Pkg().Path()
 }
 
 func sameID(obj types.Object, pkg *types.Package, name string) bool {
